@@ -6,6 +6,7 @@ the key-replacement semantics of modify(data=...) are the stdlib's own code; onl
 """
 import errno
 import selectors
+import os
 import socket as _socket
 
 EVENT_READ, EVENT_WRITE = selectors.EVENT_READ, selectors.EVENT_WRITE
@@ -51,6 +52,7 @@ class FakeSocket:
         self.state = "new"
         self.addr = None
         self.refused_reported = False
+        self.fail_errno = errno.ECONNREFUSED
         self.reset = False
         self.sent_total = bytearray()
         self.send_log = []          # (caller task, nbytes offered, nbytes accepted)
@@ -91,7 +93,10 @@ class FakeSocket:
             raise fails.pop(0)
         l = self.net.listeners.get(addr)
         if l is None or l.closed:
+            # the attempt fails asynchronously: refused by default, or - set by the harness - timed out (the peer never answers
+            # the SYNs) / host unreachable (an ICMP error comes back); the error is reported by the next send()/recv()
             self.state = "refused"
+            self.fail_errno = getattr(self.net, "connect_fail_errno", None) or errno.ECONNREFUSED
             return errno.EINPROGRESS
         srv = FakeSocket(self.net, harness_side=l.harness_side)
         srv.peer = self
@@ -114,7 +119,7 @@ class FakeSocket:
         if self.state == "refused":
             if not self.refused_reported:
                 self.refused_reported = True
-                raise ConnectionRefusedError(errno.ECONNREFUSED, "Connection refused")
+                raise OSError(self.fail_errno, os.strerror(self.fail_errno))     # OSError picks the subclass (ConnectionRefusedError, TimeoutError ...)
             raise BrokenPipeError(errno.EPIPE, "Broken pipe")
         if self.state != "conn":
             raise OSError(errno.ENOTCONN, "Transport endpoint is not connected")
@@ -164,7 +169,7 @@ class FakeSocket:
         if self.peer is not None and (self.peer.closed or self.peer.eof_sent):
             return b""
         if self.state == "refused":
-            raise ConnectionRefusedError(errno.ECONNREFUSED, "Connection refused")
+            raise OSError(self.fail_errno, os.strerror(self.fail_errno))
         raise BlockingIOError(errno.EAGAIN, "Resource temporarily unavailable")
 
     eof_sent = False
